@@ -3,7 +3,7 @@
 // independent oracle), runs the real scanner and parser of go.starlark.net/syntax
 // on the text and prints what was observed, one JSON object per line.
 //
-//	c14 -seed S -n N -mode expr|file|lit|layout|near|all
+//	c14 -seed S -n N -mode expr|file|lit|layout|near|unparen|all
 package main
 
 import (
@@ -264,13 +264,14 @@ func modeTie(kind string, n int, fam *hx.Rand) {
 func main() {
 	seed := flag.Uint64("seed", 1, "seed")
 	n := flag.Int("n", 200, "cases per family")
-	mode := flag.String("mode", "all", "expr file lit layout near all")
+	mode := flag.String("mode", "all", "expr file lit layout near unparen all")
 	flag.Parse()
 	defer hx.Flush()
 
 	root := hx.NewRand(*seed)
 	// one independent generator per family, drawn in a fixed order
 	rExpr, rFile, rLit, rLayout, rNear := root.Split(), root.Split(), root.Split(), root.Split(), root.Split()
+	rUnparen := root.Split()
 	switch *mode {
 	case "expr":
 		modeTie("expr", *n, rExpr)
@@ -282,6 +283,8 @@ func main() {
 		modeLayout(*n, rLayout)
 	case "near":
 		modeNear(*n, rNear)
+	case "unparen":
+		modeUnparen(*n, rUnparen)
 	case "all":
 		modeTie("expr", *n, rExpr)
 		modeTie("file", *n, rFile)
@@ -292,6 +295,11 @@ func main() {
 			nn = 1
 		}
 		modeNear(nn, rNear)
+		nu := *n / 5
+		if nu < 1 {
+			nu = 1
+		}
+		modeUnparen(nu, rUnparen)
 	default:
 		fmt.Fprintln(os.Stderr, "unknown mode", *mode)
 		os.Exit(2)
